@@ -291,6 +291,9 @@ func init() {
 					// accepted as well and are inside the property: all of them for k = 2, 12 (quick) for k = 3
 					if k >= 2 {
 						na := nonAlternating(k)
+						if k == 3 && tier == "thorough" {
+							na = thinPats(na, 48)
+						}
 						if k == 3 && tier != "thorough" {
 							// one ordering per multiset (the permutations are applied as transformations):
 							// two bounds of one direction with an exclusion, a point or an opposite bound
@@ -323,6 +326,9 @@ func init() {
 							l := len(pat[i]) + vlen
 							for j := 0; j <= l; j++ {
 								if tier != "thorough" && k == 3 && j%3 != 0 {
+									continue
+								}
+								if tier == "thorough" && k == 3 && j%2 != 0 {
 									continue
 								}
 								trs = append(trs, fmt.Sprintf("ws:%d:%d", i, j))
@@ -417,7 +423,7 @@ func init() {
 			return out
 		},
 		Bounds: func(tier string) string {
-			return "11 schemes; comparator patterns, alternating and not, with k <= 3 (quick: at most 24 patterns for k=2, 12 for k=3, and k <= 2 for gem and maven), plus, for k = 4, the two-pair patterns (quick: 4 of 16) under 6 permutations, 2 duplicates, 2 empty constraints and 2 spaces, and 2 (5) patterns with an exclusion between same-direction bounds under all 23 permutations; all permutations, one duplicate at every position, one empty constraint at every position, one space at every (quick: every third, for k=3) byte position of every constraint (tab, CR and LF are non-printable and belong to C17)"
+			return "11 schemes; comparator patterns, alternating and not, with k <= 3 (quick: at most 24 patterns for k=2, 12 for k=3, and k <= 2 for gem and maven), plus, for k = 4, the two-pair patterns (quick: 4 of 16) under 6 permutations, 2 duplicates, 2 empty constraints and 2 spaces, and 2 (5) patterns with an exclusion between same-direction bounds under all 23 permutations; all permutations, one duplicate at every position, one empty constraint at every position, one space at every (for k=3: every second, quick: every third) byte position of every constraint (tab, CR and LF are non-printable and belong to C17)"
 		},
 	})
 
